@@ -267,6 +267,8 @@ def find_values(v, cls, depth=0):
         out.append(v)
     if depth > 6:
         return out
+    if hasattr(v, 'cell') and isinstance(getattr(v, 'cell'), Cell):
+        out += find_values(v.cell.v, cls, depth + 1)
     if isinstance(v, Agg):
         for f in v.fields:
             out += find_values(f, cls, depth + 1)
